@@ -161,19 +161,19 @@ def run_job(job, tier, seed):
         for tag, L in layouts:
             if L.dims == 0:
                 continue
-            check_laws(res, L, rng, tag, reps=2 if L.gaDims <= 32 else 1)
+            common.gcall(res, check_laws, L, rng, tag, reps=2 if L.gaDims <= 32 else 1)
         for n in range(1, 5 if tier == 'quick' else 7):
-            check_vee_signature_independence(res, rng, n, 3 if tier == 'quick' else 10)
-        correspondence(res, [(t, L) for t, L in layouts if L.gaDims <= 64], rng, 2 if tier == 'quick' else 5, 'nojit')
+            common.gcall(res, check_vee_signature_independence, rng, n, 3 if tier == 'quick' else 10)
+        common.gcall(res, correspondence, [(t, L) for t, L in layouts if L.gaDims <= 64], rng, 2 if tier == 'quick' else 5, 'nojit')
         for name in ('pga', 'g3c', 'pga2d'):
             L = real.predefined(name)
-            check_laws(res, L, rng, name, reps=2)
+            common.gcall(res, check_laws, L, rng, name, reps=2)
     elif job == 'laws_jit':
         cases = [dict(sig=gen.random_signature(rng, n, k)) for n, k in ((2, 'nondeg'), (3, 'degenerate'), (4, 'mixed'), (4, 'nondeg'), (5, 'degenerate'))]
         layouts = common.build_layouts(res, cases, prefix='J')
         for tag, L in layouts:
-            check_laws(res, L, rng, tag, reps=2)
-        correspondence(res, layouts, rng, 6 if tier == 'quick' else 20, 'jit', dtypes=('int', 'float'))
+            common.gcall(res, check_laws, L, rng, tag, reps=2)
+        common.gcall(res, correspondence, layouts, rng, 6 if tier == 'quick' else 20, 'jit', dtypes=('int', 'float'))
     else:
         raise ValueError(job)
     return res
